@@ -72,5 +72,5 @@ static void prop(Tape &t, Ctx &c) {
     if (rc >= 0 || deep) c.nontrivial(fmt("crl:%d:%d:%llx", rc >= 0, auth, (unsigned long long) shape));
     if (rc >= 0) c.sample(fmt("psX509ParseCRL len=%zu rc=%d revoked=%u ca=%d auth=%d sel=%u", in.n, rc, nrev, (int) haveCa, auth, sel));
 }
-VF_TARGET("C09.crl", prop, 2048, 20)
+VF_TARGET("C09.crl", prop, 2048, 12)
 namespace vf { void vf_global_init(int, char **) { psCryptoOpen(PSCRYPTO_CONFIG); } }
